@@ -60,6 +60,9 @@ func relay(c *fw.Case, t *pdus.Type, b []byte, canonical bool, class string) {
 	if t.Key() == "cmpp20.PduSubmit/CMPP_SUBMIT" && v1.U("Pk_total") == 0 && v1.U("Pk_number") == 0 {
 		v1.F["Pk_total"], v1.F["Pk_number"] = uint64(1), uint64(1)
 	}
+	if int(be32(e)) != len(e) {
+		c.Failf("reencoded-length-prefix/"+t.Key(), "the re-encoded image announces %d octets but has %d\ninput=%s\nre-encoded=%s", be32(e), len(e), hx(in), hx(e))
+	}
 	e2 := append([]byte(nil), e...)
 	d2 := t.New()
 	err2, psig, pd := decode(c, d2, e)
@@ -72,6 +75,11 @@ func relay(c *fw.Case, t *pdus.Type, b []byte, canonical bool, class string) {
 		return
 	}
 	v2 := pdus.Extract(lt, d2)
+	if int(be32(in)) == len(in) && pdus.HeaderLength(t, d2) != pdus.HeaderLength(t, d1) && len(e2) == len(in) {
+		// same size, well-formed length word going in: the relayed PDU must carry the same length word
+		c.Failf("relay-unstable/"+t.Key()+"/header.length", "header length %d after the first decode, %d after relay (input %d octets, re-encoded %d octets)\ninput=%s\nre-encoded=%s",
+			pdus.HeaderLength(t, d1), pdus.HeaderLength(t, d2), len(in), len(e2), hx(in), hx(e2))
+	}
 	for _, one := range pdus.Diff(lt, v1, v2) {
 		c.Failf("relay-unstable/"+t.Key()+"/"+firstField([]string{one}), "decode->encode->decode changed the PDU: %s\ninput=%s\nre-encoded=%s", one, hx(in), hx(e2))
 	}
